@@ -252,7 +252,8 @@ def check_rec(ctx, kind, c, desc):
                 continue
             want_inst = None
         sig = dict(base_sig, q="get_first_after",
-                   where=("before" if it < lo else "after_last" if it >= hi else "inside"))
+                   where=("before" if it < lo else "after_last" if it >= hi else "inside"),
+                   interval_has_fractional_seconds=(exact_len is not None and Fraction(exact_len).denominator != 1))
         ok, got = _safe(ctx, sig, case, "get_first_after", lambda: r.get_first_after(p))
         if not ok:
             continue
